@@ -22,6 +22,10 @@ func main() {
 		os.Exit(2)
 	}
 	name := os.Args[1]
+	if name == "decode-worker" {
+		decodeWorkerMain()
+		return
+	}
 	fs := flag.NewFlagSet(name, flag.ExitOnError)
 	seed := fs.Int64("seed", 1, "")
 	tier := fs.String("tier", "quick", "")
